@@ -1,6 +1,796 @@
-//! C15 — not implemented yet.
-use crate::ctx::Ctx;
+//! C15 — approximate aggregations stay within their stated bounds (t-digest quantiles, KMV distinct count).
+//!
+//! Requests (see `lean/IbModel/Driver/D15.lean` for the grammar):
+//!   `TDIGEST <δ> <aq|raw|med> <full|q> <tree> <values> <qs> <cdfs>`   numbers = hex bit patterns of f64
+//!   `KMV <k> <new|raw> <full|est> <tree> <ranks>`
+//! Real side: the real `TDigest` / `ApproxQuantiles` / `ApproxMedian` / `KMVApproxDistinctCount` code driven
+//! through the public `CombineFn` / `LiftableCombiner` API in exactly the merge tree named by the request
+//! (state read through the `verif-hooks` accessors), and real pipelines (`combine_globally(_lifted)`,
+//! `combine_values`, `group_by_key().combine_values_lifted`, `approx_distinct_count(_per_key)`) in sequential
+//! and parallel mode, whose merge tree is derived from the engine's documented split.
+//!
+//! Oracle (independent of the Lean model, evaluated on the real `f64` answers):
+//!   t-digest: NaN iff no finite input; `min ≤ q̂ ≤ max` strictly (no tolerance); `q̂ = min` for q ≤ 0,
+//!   `q̂ = max` for q ≥ 1; `q̂` never decreases as q increases (grid); total weight = number of finite inputs;
+//!   the answer is unchanged when the non-finite inputs are removed from the request.
+//!   KMV: heap = set = the k smallest distinct ranks; exact count while #distinct < k; `(k-1)/r_k` otherwise;
+//!   the estimate equals that of the sorted, de-duplicated, single-partition run (order / duplicates / partitioning).
+//!   Empirical only (statistical claims, not provable): rank error of the t-digest on large inputs, error band of KMV.
+
+use crate::ctx::{Ctx, Rng, Tier, guarded};
+use ironbeam::collection::LiftableCombiner;
+use ironbeam::combiners::{ApproxMedian, ApproxQuantiles, KMVAcc, KMVApproxDistinctCount, TDigest, verif_rank_from_value};
+use ironbeam::{CombineFn, from_vec, Pipeline};
+
+/* ------------------------------------------------------------------ encoding */
+
+fn hx(x: f64) -> String { format!("{:016x}", x.to_bits()) }
+fn hxs(xs: &[f64]) -> String {
+    if xs.is_empty() { "-".into() } else { xs.iter().map(|x| hx(*x)).collect::<Vec<_>>().join(",") }
+}
+fn ft(x: f64) -> String { format!("F{x:?}") }
+
+#[derive(Clone, Debug)]
+pub enum Tree { L(usize), B(usize), M(Box<Tree>, Box<Tree>) }
+impl Tree {
+    fn enc(&self, out: &mut Vec<String>) {
+        match self {
+            Tree::L(n) => out.push(format!("L{n}")),
+            Tree::B(n) => out.push(format!("B{n}")),
+            Tree::M(l, r) => { out.push("M".into()); l.enc(out); r.enc(out); }
+        }
+    }
+    fn encode(&self) -> String { let mut v = vec![]; self.enc(&mut v); v.join(",") }
+    fn size(&self) -> usize { match self { Tree::L(n) | Tree::B(n) => *n, Tree::M(l, r) => l.size() + r.size() } }
+    fn leaves(&self) -> usize { match self { Tree::M(l, r) => l.leaves() + r.leaves(), _ => 1 } }
+    /// the same tree after deleting the values whose `keep` flag is false
+    fn restrict(&self, keep: &[bool], pos: &mut usize) -> Tree {
+        match self {
+            Tree::L(n) => { let c = keep[*pos..*pos + n].iter().filter(|b| **b).count(); *pos += n; Tree::L(c) }
+            Tree::B(n) => { let c = keep[*pos..*pos + n].iter().filter(|b| **b).count(); *pos += n; Tree::B(c) }
+            Tree::M(l, r) => { let a = l.restrict(keep, pos); let b = r.restrict(keep, pos); Tree::M(Box::new(a), Box::new(b)) }
+        }
+    }
+}
+/// left fold of leaves: M(M(a,b),c)…
+fn fold_tree(mut leaves: Vec<Tree>) -> Tree {
+    let mut acc = leaves.remove(0);
+    for l in leaves { acc = Tree::M(Box::new(acc), Box::new(l)); }
+    acc
+}
+fn random_tree(rng: &mut Rng, n: usize, depth: usize, allow_built: bool) -> Tree {
+    if depth == 0 || rng.chance(2, 5) {
+        if allow_built && rng.chance(1, 4) { Tree::B(n) } else { Tree::L(n) }
+    } else {
+        let a = match rng.below(4) { 0 => 0, 1 => n, _ => rng.below(n + 1) };
+        Tree::M(Box::new(random_tree(rng, a, depth - 1, allow_built)), Box::new(random_tree(rng, n - a, depth - 1, allow_built)))
+    }
+}
+
+/* ------------------------------------------------------------------ t-digest: real side */
+
+fn eval_td(c: &ApproxQuantiles<f64>, t: &Tree, vals: &[f64], pos: &mut usize) -> TDigest {
+    match t {
+        Tree::L(n) => {
+            let mut acc = c.create();
+            for v in &vals[*pos..*pos + n] { c.add_input(&mut acc, *v); }
+            *pos += n;
+            acc
+        }
+        Tree::B(n) => { let a = c.build_from_group(&vals[*pos..*pos + n]); *pos += n; a }
+        Tree::M(l, r) => {
+            let mut a = eval_td(c, l, vals, pos);
+            let b = eval_td(c, r, vals, pos);
+            c.merge(&mut a, b);
+            a
+        }
+    }
+}
+
+#[derive(Clone, Copy, PartialEq, Debug)]
+enum Fin { Aq, Raw, Med }
+impl Fin { fn s(self) -> &'static str { match self { Fin::Aq => "aq", Fin::Raw => "raw", Fin::Med => "med" } } }
+
+struct TdOut { est: Vec<f64>, state: (Vec<(f64, f64)>, f64, f64, f64), cdfs: Vec<f64> }
+
+fn real_td(delta: f64, fin: Fin, tree: &Tree, vals: &[f64], qs: &[f64], cdfs: &[f64]) -> Result<TdOut, String> {
+    guarded(|| {
+        let c = ApproxQuantiles::<f64>::new(qs.to_vec(), delta);
+        let mut pos = 0;
+        let acc = eval_td(&c, tree, vals, &mut pos);
+        let state = acc.verif_state();
+        let cd: Vec<f64> = cdfs.iter().map(|v| acc.cdf(*v)).collect();
+        let est = match fin {
+            Fin::Aq => c.finish(acc),
+            Fin::Raw => acc.quantiles(qs),
+            Fin::Med => vec![CombineFn::<f64, TDigest, f64>::finish(&ApproxMedian::<f64>::new(delta), acc)],
+        };
+        TdOut { est, state, cdfs: cd }
+    })
+}
+
+fn inversions(qs: &[f64], est: &[f64]) -> Vec<usize> {
+    let mut v = vec![];
+    for i in 0..qs.len().saturating_sub(1).min(est.len().saturating_sub(1)) {
+        if !est[i].is_nan() && !est[i + 1].is_nan() && qs[i] <= qs[i + 1] && est[i] > est[i + 1] { v.push(i); }
+    }
+    v
+}
+
+fn td_answer(o: &TdOut, qs_eff: &[f64], full: bool) -> String {
+    let mut s = String::from("Q");
+    for e in &o.est { s.push(' '); s.push_str(&ft(*e)); }
+    if !full { return s; }
+    let (cs, total, mn, mx) = &o.state;
+    s.push_str(&format!(" | S {} {} {} {}", cs.len(), ft(*total), ft(*mn), ft(*mx)));
+    s.push_str(" | C");
+    for (m, w) in cs { s.push(' '); s.push_str(&ft(*m)); s.push(' '); s.push_str(&ft(*w)); }
+    s.push_str(" | D");
+    for d in &o.cdfs { s.push(' '); s.push_str(&ft(*d)); }
+    s.push_str(" | INV");
+    let inv = inversions(qs_eff, &o.est);
+    if inv.is_empty() { s.push_str(" -"); } else { for i in inv { s.push_str(&format!(" I{i}")); } }
+    s
+}
+
+/// the property's own statement on the real answer
+fn td_oracle(cx: &mut Ctx, i: usize, delta: f64, fin: Fin, tree: &Tree, vals: &[f64], qs: &[f64], o: &TdOut, check_total: bool) {
+    let qs_eff: Vec<f64> = if fin == Fin::Med { vec![0.5] } else { qs.to_vec() };
+    let fin_vals: Vec<f64> = vals.iter().copied().filter(|v| v.is_finite()).collect();
+    let n = fin_vals.len();
+    if check_total && o.state.1 != n as f64 {
+        cx.oracle_fail(i, "tdigest-total-weight-not-count-of-finite-inputs", format!("total={} finite inputs={n}", o.state.1));
+    }
+    if n == 0 {
+        if o.est.iter().any(|e| !e.is_nan()) {
+            cx.oracle_fail(i, "tdigest-not-nan-on-empty-input", format!("est={:?}", o.est));
+        }
+        return;
+    }
+    let mn = fin_vals.iter().copied().fold(f64::INFINITY, f64::min);
+    let mx = fin_vals.iter().copied().fold(f64::NEG_INFINITY, f64::max);
+    for (j, e) in o.est.iter().enumerate() {
+        let q = qs_eff[j];
+        if e.is_nan() {
+            cx.oracle_fail(i, "tdigest-nan-on-nonempty-input", format!("q={q:?} est=NaN with {n} finite inputs"));
+            continue;
+        }
+        if q.is_nan() { continue; }
+        if !(mn <= *e && *e <= mx) {
+            cx.oracle_fail(i, "tdigest-estimate-outside-min-max", format!("q={q:?} est={e:?} min={mn:?} max={mx:?} excess={:e}", if *e > mx { *e - mx } else { mn - *e }));
+        }
+        if q <= 0.0 && *e != mn {
+            cx.oracle_fail(i, "tdigest-q0-not-min", format!("q={q:?} est={e:?} min={mn:?}"));
+        }
+        if q >= 1.0 && *e != mx {
+            cx.oracle_fail(i, "tdigest-q1-not-max", format!("q={q:?} est={e:?} max={mx:?}"));
+        }
+    }
+    let inv = inversions(&qs_eff, &o.est);
+    if let Some(j) = inv.first() {
+        cx.count("tdigest:non-monotone cases");
+        cx.oracle_fail(i, "quantile-not-monotone-in-q",
+            format!("{} inversions; first: q={:?} -> {:?} but q={:?} -> {:?}", inv.len(), qs_eff[*j], o.est[*j], qs_eff[*j + 1], o.est[*j + 1]));
+    }
+    // non-finite inputs are ignored: same request without them gives the same answer
+    if n != vals.len() {
+        let keep: Vec<bool> = vals.iter().map(|v| v.is_finite()).collect();
+        let mut pos = 0;
+        let t2 = tree.restrict(&keep, &mut pos);
+        match real_td(delta, fin, &t2, &fin_vals, qs, &[]) {
+            Ok(o2) => {
+                let same = o2.est.len() == o.est.len() && o2.est.iter().zip(&o.est).all(|(a, b)| a.to_bits() == b.to_bits() || (a.is_nan() && b.is_nan()) || a == b);
+                if !same {
+                    cx.oracle_fail(i, "tdigest-nonfinite-input-changes-result", format!("with={:?} without={:?}", o.est, o2.est));
+                }
+            }
+            Err(e) => cx.oracle_fail(i, "tdigest-panic", format!("finite-only rerun panicked: {e}")),
+        }
+        cx.count("tdigest:with non-finite inputs");
+    }
+}
+
+fn one_td(cx: &mut Ctx, delta: f64, fin: Fin, tree: &Tree, vals: &[f64], qs: &[f64], cdfs: &[f64]) {
+    debug_assert_eq!(tree.size(), vals.len());
+    let req = format!("TDIGEST {} {} full {} {} {} {}", hx(delta), fin.s(), tree.encode(), hxs(vals), hxs(qs), hxs(cdfs));
+    let qs_eff: Vec<f64> = if fin == Fin::Med { vec![0.5] } else { qs.to_vec() };
+    let nt = vals.len() >= 2 && !qs_eff.is_empty();
+    match real_td(delta, fin, tree, vals, qs, cdfs) {
+        Ok(o) => {
+            let i = cx.case(req, td_answer(&o, &qs_eff, true), nt);
+            cx.count(&format!("tdigest:fin={}", fin.s()));
+            cx.count(&format!("tdigest:n~{}", bucket(vals.len())));
+            cx.count(&format!("tdigest:leaves~{}", bucket(tree.leaves())));
+            cx.count(&format!("tdigest:centroids~{}", bucket(o.state.0.len())));
+            td_oracle(cx, i, delta, fin, tree, vals, qs, &o, true);
+        }
+        Err(e) => {
+            let i = cx.case(req, "PANIC".into(), nt);
+            cx.oracle_fail(i, "tdigest-panic", e);
+        }
+    }
+}
+
+fn bucket(n: usize) -> &'static str {
+    match n { 0 => "0", 1 => "1", 2 => "2", 3..=4 => "3-4", 5..=8 => "5-8", 9..=32 => "9-32", 33..=128 => "33-128", 129..=1024 => "129-1024", _ => ">1024" }
+}
+
+fn grid(n: usize) -> Vec<f64> { (0..=n).map(|i| i as f64 / n as f64).collect() }
+
+/* ------------------------------------------------------------------ KMV: real side */
+
+fn eval_kmv(c: &KMVApproxDistinctCount<u64>, t: &Tree, ranks: &[f64], pos: &mut usize) -> KMVAcc {
+    match t {
+        Tree::L(n) | Tree::B(n) => {
+            let mut acc = c.create();
+            for r in &ranks[*pos..*pos + n] { acc.verif_try_insert(*r); }
+            *pos += n;
+            acc
+        }
+        Tree::M(l, r) => {
+            let mut a = eval_kmv(c, l, ranks, pos);
+            let b = eval_kmv(c, r, ranks, pos);
+            c.merge(&mut a, b);
+            a
+        }
+    }
+}
+
+fn kmv_comb(k: usize, raw: bool) -> KMVApproxDistinctCount<u64> {
+    let mut c = KMVApproxDistinctCount::<u64>::new(k);
+    if raw { c.k = k; }
+    c
+}
+
+struct KmvOut { est: Result<f64, String>, heap: Vec<f64>, set: Vec<f64>, k: usize }
+
+fn real_kmv(k: usize, raw: bool, tree: &Tree, ranks: &[f64]) -> Result<KmvOut, String> {
+    guarded(|| {
+        let c = kmv_comb(k, raw);
+        let mut pos = 0;
+        let acc = eval_kmv(&c, tree, ranks, &mut pos);
+        let (heap, set, kk) = acc.verif_state();
+        let est = guarded(|| c.finish(acc));
+        KmvOut { est, heap, set, k: kk }
+    })
+}
+
+fn kmv_reference(ranks: &[f64], k: usize) -> (Vec<f64>, usize) {
+    let mut d: Vec<f64> = ranks.to_vec();
+    d.sort_by(f64::total_cmp);
+    d.dedup_by(|a, b| a == b);
+    let dn = d.len();
+    d.truncate(k);
+    (d, dn)
+}
+
+fn one_kmv(cx: &mut Ctx, k: usize, raw: bool, tree: &Tree, ranks: &[f64]) {
+    debug_assert_eq!(tree.size(), ranks.len());
+    let req = format!("KMV {k} {} full {} {}", if raw { "raw" } else { "new" }, tree.encode(), hxs(ranks));
+    let nt = ranks.len() >= 2;
+    let o = match real_kmv(k, raw, tree, ranks) {
+        Ok(o) => o,
+        Err(e) => { let i = cx.case(req, "PANIC".into(), nt); cx.oracle_fail(i, "kmv-panic", e); return; }
+    };
+    let est_tok = match &o.est { Ok(e) => ft(*e), Err(_) => "PANIC".into() };
+    let mut ans = format!("{est_tok} M{} H{} K{} | H", o.set.len(), o.heap.len(), o.k);
+    for h in &o.heap { ans.push(' '); ans.push_str(&ft(*h)); }
+    ans.push_str(" | S");
+    for h in &o.set { ans.push(' '); ans.push_str(&ft(*h)); }
+    let i = cx.case(req, ans, nt);
+    let keff = o.k;
+    let (want, d) = kmv_reference(ranks, keff);
+    cx.count(&format!("kmv:k={}", if keff <= 8 { keff.to_string() } else { bucket(keff).to_string() }));
+    cx.count(if d < keff { "kmv:below-k" } else if d == keff { "kmv:d=k" } else { "kmv:above-k" });
+    cx.count(&format!("kmv:leaves~{}", bucket(tree.leaves())));
+    if keff == 0 { cx.count("kmv:k=0 (correspondence only)"); return; }
+    if o.heap.len() > keff {
+        cx.oracle_fail(i, "kmv-heap-larger-than-k", format!("|heap|={} k={keff}", o.heap.len()));
+    }
+    if o.heap != o.set {
+        cx.oracle_fail(i, "kmv-heap-and-set-differ", format!("heap={:?} set={:?}", o.heap, o.set));
+    }
+    if o.heap != want {
+        cx.oracle_fail(i, "kmv-kept-ranks-not-k-smallest-distinct", format!("heap={:?} want={:?}", o.heap, want));
+    }
+    match &o.est {
+        Err(e) => cx.oracle_fail(i, "kmv-panic", e.clone()),
+        Ok(est) => {
+            if d < keff {
+                if *est != d as f64 { cx.oracle_fail(i, "kmv-not-exact-below-k", format!("distinct={d} k={keff} est={est:?}")); }
+            } else {
+                let wantest = (keff as f64 - 1.0) / want[keff - 1];
+                if *est != wantest && !(est.is_nan() && wantest.is_nan()) {
+                    cx.oracle_fail(i, "kmv-estimate-not-(k-1)/r_k", format!("est={est:?} want={wantest:?}"));
+                }
+            }
+            // independent of duplicates, order, partitioning: same as the sorted distinct single-leaf run
+            let (alld, _) = kmv_reference(ranks, usize::MAX);
+            if let Ok(o2) = real_kmv(k, raw, &Tree::L(alld.len()), &alld) {
+                match o2.est {
+                    Ok(e2) if e2 == *est || (e2.is_nan() && est.is_nan()) => {}
+                    other => cx.oracle_fail(i, "kmv-depends-on-order-duplicates-or-partitioning", format!("est={est:?}, sorted distinct single run={other:?}")),
+                }
+            }
+        }
+    }
+}
+
+/* ------------------------------------------------------------------ pipelines */
+
+/// the engine's split of a vector source: `clamp(parts,1,max(len,1))`, then contiguous chunks of `ceil(len/n)`
+fn engine_chunks(len: usize, parts: usize) -> Vec<usize> {
+    let n = parts.max(1).min(len.max(1));
+    if n <= 1 || len <= 1 { return vec![len]; }
+    let chunk = len.div_ceil(n);
+    let mut v = vec![];
+    let mut left = len;
+    while left > 0 { let c = chunk.min(left); v.push(c); left -= c; }
+    v
+}
+
+#[derive(Clone, Copy, Debug, PartialEq)]
+enum Mode { Seq, Par(usize) }
+impl Mode { fn chunks(self, len: usize) -> Vec<usize> { match self { Mode::Seq => vec![len], Mode::Par(p) => engine_chunks(len, p) } } }
+
+fn collect<T: ironbeam::RFBound>(pc: ironbeam::PCollection<T>, mode: Mode) -> Result<Vec<T>, String> {
+    match guarded(|| match mode { Mode::Seq => pc.collect_seq(), Mode::Par(p) => pc.collect_par(Some(4), Some(p)) }) {
+        Ok(Ok(v)) => Ok(v),
+        Ok(Err(e)) => Err(format!("ERR {e}")),
+        Err(e) => Err(format!("PANIC {e}")),
+    }
+}
+
+/// global quantiles: `combine_globally(ApproxQuantiles)` / `combine_globally_lifted` / ApproxMedian
+fn pipe_td_global(cx: &mut Ctx, delta: f64, vals: &[f64], qs: &[f64], mode: Mode, lifted: bool, median: bool) {
+    let p = Pipeline::default();
+    let src = from_vec(&p, vals.to_vec());
+    let res: Result<Vec<f64>, String> = if median {
+        let c = ApproxMedian::<f64>::new(delta);
+        let pc = if lifted { src.combine_globally_lifted(c, None) } else { src.combine_globally(c, None) };
+        collect(pc, mode)
+    } else {
+        let c = ApproxQuantiles::<f64>::new(qs.to_vec(), delta);
+        let pc = if lifted { src.combine_globally_lifted(c, None) } else { src.combine_globally(c, None) };
+        collect(pc, mode).map(|v| v.into_iter().flatten().collect())
+    };
+    let chunks = mode.chunks(vals.len());
+    let tree = fold_tree(chunks.iter().map(|c| if lifted { Tree::B(*c) } else { Tree::L(*c) }).collect());
+    let fin = if median { Fin::Med } else { Fin::Aq };
+    pipe_td_case(cx, delta, fin, &tree, vals, qs, res, &format!("pipe:global{}{}:{mode:?}", if lifted { "-lifted" } else { "" }, if median { "-median" } else { "" }));
+}
+
+fn pipe_td_case(cx: &mut Ctx, delta: f64, fin: Fin, tree: &Tree, vals: &[f64], qs: &[f64], res: Result<Vec<f64>, String>, label: &str) {
+    let req = format!("TDIGEST {} {} q {} {} {} -", hx(delta), fin.s(), tree.encode(), hxs(vals), hxs(qs));
+    let qs_eff: Vec<f64> = if fin == Fin::Med { vec![0.5] } else { qs.to_vec() };
+    cx.count(label.split(':').take(2).collect::<Vec<_>>().join(":").as_str());
+    match res {
+        Ok(est) => {
+            let o = TdOut { est, state: (vec![], 0.0, 0.0, 0.0), cdfs: vec![] };
+            let i = cx.case(req, td_answer(&o, &qs_eff, false), vals.len() >= 2);
+            td_oracle(cx, i, delta, fin, tree, vals, qs, &o, false);
+        }
+        Err(e) => {
+            let i = cx.case(req, e.split(' ').next().unwrap_or("PANIC").to_string(), true);
+            cx.oracle_fail(i, "tdigest-pipeline-failed", format!("{label}: {e}"));
+        }
+    }
+}
+
+/// per-key quantiles: `combine_values` or `group_by_key().combine_values_lifted` (the planner lifts the
+/// latter back to element-wise `add_input`), one request per key
+fn pipe_td_keyed(cx: &mut Ctx, delta: f64, rows: &[(u32, f64)], qs: &[f64], mode: Mode, via_gbk: bool, median: bool) {
+    let p = Pipeline::default();
+    let src = from_vec(&p, rows.to_vec());
+    let res: Result<Vec<(u32, Vec<f64>)>, String> = if median {
+        let c = ApproxMedian::<f64>::new(delta);
+        let pc = if via_gbk { src.group_by_key().combine_values_lifted(c) } else { src.combine_values(c) };
+        collect(pc, mode).map(|v| v.into_iter().map(|(k, m)| (k, vec![m])).collect())
+    } else {
+        let c = ApproxQuantiles::<f64>::new(qs.to_vec(), delta);
+        let pc = if via_gbk { src.group_by_key().combine_values_lifted(c) } else { src.combine_values(c) };
+        collect(pc, mode)
+    };
+    let label = format!("pipe:keyed{}{}:{mode:?}", if via_gbk { "-gbk-lifted" } else { "" }, if median { "-median" } else { "" });
+    let fin = if median { Fin::Med } else { Fin::Aq };
+    let mut keys: Vec<u32> = rows.iter().map(|r| r.0).collect();
+    keys.sort(); keys.dedup();
+    let chunks = mode.chunks(rows.len());
+    match res {
+        Err(e) => {
+            let i = cx.case(format!("TDIGEST {} {} q L0 - {} -", hx(delta), fin.s(), hxs(qs)), e.split(' ').next().unwrap_or("PANIC").to_string(), true);
+            cx.oracle_fail(i, "tdigest-pipeline-failed", format!("{label}: {e}"));
+        }
+        Ok(mut out) => {
+            out.sort_by_key(|r| r.0);
+            let out_keys: Vec<u32> = out.iter().map(|r| r.0).collect();
+            if out_keys != keys {
+                let i = cx.case(format!("TDIGEST {} {} q L0 - {} -", hx(delta), fin.s(), hxs(qs)), "KEYS".into(), true);
+                cx.oracle_fail(i, "tdigest-pipeline-keys-differ", format!("{label}: got {out_keys:?} want {keys:?}"));
+                return;
+            }
+            for (k, est) in out {
+                // values of this key per source chunk, in order; merge starts from an empty accumulator
+                let mut leaves = vec![Tree::L(0)];
+                let mut vals = vec![];
+                let mut off = 0;
+                for c in &chunks {
+                    let part: Vec<f64> = rows[off..off + c].iter().filter(|r| r.0 == k).map(|r| r.1).collect();
+                    off += c;
+                    if !part.is_empty() { leaves.push(Tree::L(part.len())); vals.extend(part); }
+                }
+                let tree = fold_tree(leaves);
+                pipe_td_case(cx, delta, fin, &tree, &vals, qs, Ok(est), &label);
+            }
+        }
+    }
+}
+
+fn pipe_kmv_case(cx: &mut Ctx, k: usize, tree: &Tree, values: &[u64], res: Result<f64, String>, label: &str) {
+    let ranks: Vec<f64> = values.iter().map(verif_rank_from_value).collect();
+    let req = format!("KMV {k} new est {} {}", tree.encode(), hxs(&ranks));
+    cx.count(label.split(':').take(2).collect::<Vec<_>>().join(":").as_str());
+    match res {
+        Ok(est) => {
+            let i = cx.case(req, ft(est), values.len() >= 2);
+            let mut d: Vec<u64> = values.to_vec();
+            d.sort(); d.dedup();
+            let (dr, dn) = kmv_reference(&ranks, usize::MAX);
+            if dn != d.len() { cx.count("kmv:rank collision among inputs (hash not injective)"); return; }
+            let keff = k.max(4);
+            if d.len() < keff {
+                if est != d.len() as f64 { cx.oracle_fail(i, "kmv-not-exact-below-k", format!("{label}: distinct={} k={keff} est={est:?}", d.len())); }
+            } else {
+                let want = (keff as f64 - 1.0) / dr[keff - 1];
+                if est != want { cx.oracle_fail(i, "kmv-depends-on-order-duplicates-or-partitioning", format!("{label}: est={est:?}, (k-1)/r_k of the distinct inputs={want:?}")); }
+            }
+        }
+        Err(e) => {
+            let i = cx.case(req, e.split(' ').next().unwrap_or("PANIC").to_string(), true);
+            cx.oracle_fail(i, "kmv-pipeline-failed", format!("{label}: {e}"));
+        }
+    }
+}
+
+fn pipe_kmv_global(cx: &mut Ctx, k: usize, values: &[u64], mode: Mode) {
+    let p = Pipeline::default();
+    let res = collect(from_vec(&p, values.to_vec()).approx_distinct_count(k), mode).and_then(|v| v.first().copied().ok_or_else(|| "ERR empty".to_string()));
+    let tree = fold_tree(mode.chunks(values.len()).iter().map(|c| Tree::L(*c)).collect());
+    pipe_kmv_case(cx, k, &tree, values, res, &format!("pipe:kmv-global:{mode:?}"));
+}
+
+fn pipe_kmv_keyed(cx: &mut Ctx, k: usize, rows: &[(u32, u64)], mode: Mode) {
+    let p = Pipeline::default();
+    let res = collect(from_vec(&p, rows.to_vec()).approx_distinct_count_per_key(k), mode);
+    let label = format!("pipe:kmv-keyed:{mode:?}");
+    let chunks = mode.chunks(rows.len());
+    let mut keys: Vec<u32> = rows.iter().map(|r| r.0).collect();
+    keys.sort(); keys.dedup();
+    match res {
+        Err(e) => {
+            let i = cx.case(format!("KMV {k} new est L0 -"), e.split(' ').next().unwrap_or("PANIC").to_string(), true);
+            cx.oracle_fail(i, "kmv-pipeline-failed", format!("{label}: {e}"));
+        }
+        Ok(mut out) => {
+            out.sort_by_key(|r| r.0);
+            if out.iter().map(|r| r.0).collect::<Vec<_>>() != keys {
+                let i = cx.case(format!("KMV {k} new est L0 -"), "KEYS".into(), true);
+                cx.oracle_fail(i, "kmv-pipeline-keys-differ", label.clone());
+                return;
+            }
+            for (key, est) in out {
+                let mut leaves = vec![Tree::L(0)];
+                let mut vals = vec![];
+                let mut off = 0;
+                for c in &chunks {
+                    let part: Vec<u64> = rows[off..off + c].iter().filter(|r| r.0 == key).map(|r| r.1).collect();
+                    off += c;
+                    if !part.is_empty() { leaves.push(Tree::L(part.len())); vals.extend(part); }
+                }
+                pipe_kmv_case(cx, k, &fold_tree(leaves), &vals, Ok(est), &label);
+            }
+        }
+    }
+}
+
+/* ------------------------------------------------------------------ generators */
+
+fn gen_values(rng: &mut Rng, n: usize) -> Vec<f64> {
+    let style = rng.below(12);
+    let mut v: Vec<f64> = (0..n).map(|i| match style {
+        0 => i as f64 + 1.0,                                              // ramp
+        1 => rng.range(0, 3) as f64,                                       // heavy ties
+        2 => rng.range(-5, 5) as f64 * 0.1,                                // small decimals, ties
+        3 => (rng.next_u64() >> 11) as f64 / (1u64 << 53) as f64,         // uniform [0,1)
+        4 => ((rng.next_u64() >> 11) as f64 / (1u64 << 53) as f64 - 0.5) * 2e300, // huge magnitudes
+        5 => ((rng.next_u64() >> 11) as f64 / (1u64 << 53) as f64 - 0.5) * 2e-300, // tiny magnitudes
+        6 => { let e = rng.range(-300, 300) as i32; let s = if rng.chance(1, 2) { -1.0 } else { 1.0 }; s * 10f64.powi(e) } // mixed exponents
+        7 => 1e15 + rng.range(0, 9) as f64 * 0.125,                        // large offset, small spread
+        8 => -((rng.next_u64() % 1000) as f64).exp2() % 1e10,              // negative, skewed
+        9 => { let u = (rng.next_u64() >> 11) as f64 / (1u64 << 53) as f64; -(1.0 - u).ln() } // exponential
+        10 => *rng.pick(&[f64::MAX, f64::MIN, f64::MIN_POSITIVE, 5e-324, -5e-324, 0.0, -0.0, 1.0, -1.0, f64::MAX / 2.0, f64::MIN / 2.0, 1.7e308, -1.7e308]),
+        _ => f64::from_bits(rng.next_u64()),                               // arbitrary bit patterns (may be NaN/inf)
+    }).collect();
+    // sprinkle non-finite inputs
+    if rng.chance(1, 5) && n > 0 {
+        for _ in 0..1 + rng.below(3) {
+            let i = rng.below(n);
+            v[i] = *rng.pick(&[f64::NAN, f64::INFINITY, f64::NEG_INFINITY, -f64::NAN]);
+        }
+    }
+    match rng.below(4) {
+        0 => v.sort_by(f64::total_cmp),
+        1 => { v.sort_by(f64::total_cmp); v.reverse(); }
+        _ => {}
+    }
+    v
+}
+
+fn gen_delta(rng: &mut Rng) -> f64 {
+    match rng.below(10) {
+        0 => 1.0, 1 => 2.0, 2 => 5.0, 3 => 20.0, 4 => 100.0, 5 => 100.0, 6 => 3.5, 7 => 10.0, 8 => 50.0,
+        _ => *rng.pick(&[0.0, 0.5, -1.0, 1000.0, 7.25]),
+    }
+}
+
+fn gen_qs(rng: &mut Rng) -> Vec<f64> {
+    match rng.below(6) {
+        0 => grid(100),
+        1 => grid(20),
+        2 => vec![0.0, 0.25, 0.5, 0.75, 1.0],
+        3 => vec![0.01, 0.05, 0.10, 0.25, 0.50, 0.75, 0.90, 0.95, 0.99],
+        4 => { let mut v: Vec<f64> = (0..1 + rng.below(8)).map(|_| (rng.next_u64() >> 11) as f64 / (1u64 << 53) as f64).collect(); v.sort_by(f64::total_cmp); v }
+        _ => vec![-1.0, -0.0, 0.0, 1e-17, 2.220446049250313e-16, 3e-16, 0.5, 1.0 - 3e-16, 1.0 - 1.1102230246251565e-16, 1.0, 1.0000000000000002, 2.0, f64::INFINITY],
+    }
+}
+
+fn gen_cdfs(rng: &mut Rng, vals: &[f64]) -> Vec<f64> {
+    let mut v = vec![];
+    for _ in 0..rng.below(4) {
+        if !vals.is_empty() && rng.chance(2, 3) {
+            let x = *rng.pick(vals);
+            if x.is_finite() { v.push(if rng.chance(1, 2) { x } else { x * 0.5 + 0.25 }); }
+        } else { v.push(rng.range(-3, 12) as f64 * 0.5); }
+    }
+    v
+}
+
+fn gen_ranks(rng: &mut Rng, n: usize, dom: usize) -> Vec<f64> {
+    // ranks = hashes of values drawn from a domain of `dom` values => duplicates
+    (0..n).map(|_| verif_rank_from_value(&(rng.below(dom) as u64 * 7919 + 13))).collect()
+}
+
+/* ------------------------------------------------------------------ empirical accuracy (not provable) */
+
+fn rank_error(sorted: &[f64], est: f64, q: f64) -> f64 {
+    let n = sorted.len() as f64;
+    let lo = sorted.partition_point(|x| *x < est) as f64 / n;
+    let hi = sorted.partition_point(|x| *x <= est) as f64 / n;
+    if q < lo { lo - q } else if q > hi { q - hi } else { 0.0 }
+}
+
+fn empirical(cx: &mut Ctx) {
+    let thorough = cx.tier != Tier::Quick;
+    let nmax = if thorough { 100_000 } else { 20_000 };
+    let qs = vec![0.01, 0.05, 0.1, 0.25, 0.5, 0.75, 0.9, 0.95, 0.99];
+    let mut worst: f64 = 0.0;
+    let dists = if thorough { 4 } else { 2 };
+    for dist in 0..dists {
+        // (the digest keeps ~n/(δ/8) centroids, so a run costs O(n²/δ): only two distributions at full size)
+        let n = if dist < 2 { nmax } else { nmax / 4 };
+        for order in 0..3 {
+            let mut vals: Vec<f64> = (0..n).map(|_| {
+                let u = (cx.rng.next_u64() >> 11) as f64 / (1u64 << 53) as f64;
+                match dist { 0 => u, 1 => -(1.0 - u).ln(), 2 => (u - 0.5).powi(3) * 1e6, _ => (u * 50.0).floor() }
+            }).collect();
+            match order { 0 => {}, 1 => vals.sort_by(f64::total_cmp), _ => { vals.sort_by(f64::total_cmp); vals.reverse(); } }
+            let mut sorted = vals.clone();
+            sorted.sort_by(f64::total_cmp);
+            for &delta in if thorough { &[100.0, 500.0][..] } else { &[100.0][..] } {
+                for &parts in if !thorough || delta == 100.0 { &[1usize, 7, 64][..] } else if order == 0 { &[16usize][..] } else { &[][..] } {
+                    let p = Pipeline::default();
+                    let pc = from_vec(&p, vals.clone()).combine_globally(ApproxQuantiles::<f64>::new(qs.clone(), delta), None);
+                    let mode = if parts == 1 { Mode::Seq } else { Mode::Par(parts) };
+                    let est: Vec<f64> = match collect(pc, mode) { Ok(v) => v.into_iter().flatten().collect(), Err(_) => continue };
+                    for (q, e) in qs.iter().zip(&est) {
+                        let err = rank_error(&sorted, *e, *q);
+                        worst = worst.max(err);
+                        cx.count("empirical:tdigest rank-error evaluations");
+                        if err > 0.02 {
+                            let i = cx.case(format!("TDIGEST {} aq q L0 - - -", hx(delta)), "Q".into(), false);
+                            cx.oracle_fail(i, "tdigest-rank-error-above-2-percent(empirical)", format!("dist={dist} order={order} n={n} δ={delta} parts={parts} q={q} est={e} rank error={err:.4}"));
+                        }
+                    }
+                }
+            }
+        }
+    }
+    cx.notes.push(format!("empirical (not a theorem): worst t-digest rank error {worst:.5} over n≤{nmax} inputs, δ≥100, 1..64 partitions (bound checked: 0.02)"));
+    // KMV error band: |est/d - 1| ≤ 4/sqrt(k) for d ≫ k
+    let seeds = if thorough { 200 } else { 40 };
+    let mut worst_rel: f64 = 0.0;
+    let mut outside = 0;
+    for s in 0..seeds {
+        let k = *cx.rng.pick(&[64usize, 256, 1024]);
+        let d = k * (8 + cx.rng.below(24));
+        let base = cx.rng.next_u64();
+        let mut values: Vec<u64> = (0..d as u64).map(|i| base.wrapping_add(i.wrapping_mul(0x9E37_79B9))).collect();
+        let dups: Vec<u64> = (0..d / 2).map(|_| values[cx.rng.below(d)]).collect();
+        values.extend(dups);
+        for i in (1..values.len()).rev() { let j = cx.rng.below(i + 1); values.swap(i, j); }
+        let p = Pipeline::default();
+        let mode = if s % 2 == 0 { Mode::Seq } else { Mode::Par(1 + cx.rng.below(16)) };
+        if let Ok(v) = collect(from_vec(&p, values).approx_distinct_count(k), mode) {
+            let rel = (v[0] / d as f64 - 1.0).abs();
+            worst_rel = worst_rel.max(rel * (k as f64).sqrt());
+            cx.count("empirical:kmv error-band evaluations");
+            if rel > 4.0 / (k as f64).sqrt() {
+                outside += 1;
+                let i = cx.case(format!("KMV {k} new est L0 -"), ft(0.0), false);
+                cx.oracle_fail(i, "kmv-estimate-outside-4/sqrt(k)(empirical)", format!("k={k} d={d} est={} rel={rel:.4}", v[0]));
+            }
+        }
+    }
+    cx.notes.push(format!("empirical (not a theorem): worst KMV relative error = {worst_rel:.3}/sqrt(k) over {seeds} seeds, d in 8k..32k (band checked: 4/sqrt(k)); outside: {outside}"));
+}
+
+/* ------------------------------------------------------------------ run */
+
+fn all_trees(n: usize) -> Vec<Tree> {
+    // every way to cut n values into ≤ 3 contiguous leaves, both association orders, plus a built variant
+    let mut v = vec![Tree::L(n), Tree::B(n)];
+    for a in 0..=n {
+        v.push(Tree::M(Box::new(Tree::L(a)), Box::new(Tree::L(n - a))));
+        v.push(Tree::M(Box::new(Tree::B(a)), Box::new(Tree::L(n - a))));
+        for b in 0..=(n - a) {
+            let c = n - a - b;
+            v.push(Tree::M(Box::new(Tree::M(Box::new(Tree::L(a)), Box::new(Tree::L(b)))), Box::new(Tree::L(c))));
+            v.push(Tree::M(Box::new(Tree::L(a)), Box::new(Tree::M(Box::new(Tree::L(b)), Box::new(Tree::L(c))))));
+        }
+    }
+    v
+}
 
 pub fn run(cx: &mut Ctx) {
-    cx.notes.push("C15: harness not implemented".to_string());
+    let t0 = std::time::Instant::now();
+    let mut marks: Vec<(String, f64)> = vec![];
+    /* (1) corpus: design witnesses and minimised past failures */
+    // the saw-tooth: q̂(.25)=2 > q̂(.26)=1.08 on [1,2,3,4], δ=100
+    one_td(cx, 100.0, Fin::Raw, &Tree::L(4), &[1.0, 2.0, 3.0, 4.0], &[0.25, 0.26, 0.5, 0.51], &[]);
+    one_td(cx, 100.0, Fin::Aq, &Tree::L(4), &[1.0, 2.0, 3.0, 4.0], &grid(100), &[0.0, 1.0, 2.5, 4.0, 5.0]);
+    // rounding above max (fixed by the clamp): left + 1.0·(right − left) > right
+    one_td(cx, 100.0, Fin::Aq, &Tree::L(3), &[0.1, 0.7, 0.3], &grid(100), &[]);
+    one_td(cx, 100.0, Fin::Aq, &Tree::L(3), &[-1.7e308, 0.0, 1.7e308], &grid(20), &[]);
+    one_td(cx, 100.0, Fin::Aq, &Tree::L(120), &vec![f64::MAX; 120], &grid(20), &[]);
+    {
+        let mut v = vec![f64::MIN; 60]; v.extend(vec![f64::MAX; 60]);
+        one_td(cx, 100.0, Fin::Aq, &Tree::M(Box::new(Tree::L(70)), Box::new(Tree::L(50))), &v, &grid(20), &[]);
+    }
+    one_td(cx, 100.0, Fin::Aq, &Tree::L(0), &[], &[0.0, 0.5, 1.0], &[1.0]);
+    one_td(cx, 100.0, Fin::Med, &Tree::L(2), &[f64::NAN, f64::INFINITY], &[], &[]);
+    one_td(cx, 100.0, Fin::Aq, &Tree::L(3), &[f64::NAN, 5.0, f64::NEG_INFINITY], &[0.0, 0.5, 1.0], &[]);
+    one_kmv(cx, 4, false, &Tree::L(6), &[0.5, 0.25, 0.5, 0.75, 0.125, 0.25]);
+    one_kmv(cx, 2, true, &Tree::M(Box::new(Tree::L(3)), Box::new(Tree::L(3))), &[0.5, 0.25, 0.75, 0.125, 0.25, 0.9]);
+    one_kmv(cx, 0, true, &Tree::L(2), &[0.5, 0.25]);
+
+    marks.push(("corpus".into(), t0.elapsed().as_secs_f64()));
+    /* (2) small-scope exhaustive */
+    {
+        // t-digest: every sequence of length ≤ n over {1, 2, 2.5, NaN}, every ≤3-leaf merge tree, δ ∈ {1, 100}, 21-point grid
+        let n = cx.budget(3, 4);
+        let alpha = [1.0, 2.0, 2.5, f64::NAN];
+        let mut seqs: Vec<Vec<f64>> = vec![vec![]];
+        let mut frontier: Vec<Vec<f64>> = vec![vec![]];
+        for _ in 0..n {
+            let mut next = vec![];
+            for s in &frontier { for a in alpha { let mut t = s.clone(); t.push(a); next.push(t); } }
+            seqs.extend(next.iter().cloned());
+            frontier = next;
+        }
+        let g = grid(20);
+        let mut cnt = 0;
+        for s in &seqs {
+            for t in all_trees(s.len()) {
+                for delta in [1.0, 100.0] {
+                    one_td(cx, delta, Fin::Aq, &t, s, &g, &[1.5]);
+                    cnt += 1;
+                }
+            }
+        }
+        cx.exhaustive_blocks.push(format!("t-digest: all value sequences of length <= {n} over {{1, 2, 2.5, NaN}} x all merge trees with <= 3 leaves (element-wise and build_from_group leaves, both association orders) x δ in {{1,100}} on a 21-point q grid ({cnt} digests)"));
+        // KMV: every rank sequence of length ≤ m over 4 ranks, k ∈ {1,2,3}, every ≤3-leaf tree
+        let m = cx.budget(4, 5);
+        let ralpha = [0.125, 0.25, 0.5, 0.75];
+        let mut rseqs: Vec<Vec<f64>> = vec![vec![]];
+        let mut frontier: Vec<Vec<f64>> = vec![vec![]];
+        for _ in 0..m {
+            let mut next = vec![];
+            for s in &frontier { for a in ralpha { let mut t = s.clone(); t.push(a); next.push(t); } }
+            rseqs.extend(next.iter().cloned());
+            frontier = next;
+        }
+        let mut cnt = 0;
+        for s in &rseqs {
+            for t in all_trees(s.len()) {
+                if matches!(t, Tree::B(_)) || matches!(&t, Tree::M(l, _) if matches!(**l, Tree::B(_))) { continue; }
+                for k in [1usize, 2, 3] {
+                    one_kmv(cx, k, true, &t, s);
+                    cnt += 1;
+                }
+            }
+        }
+        cx.exhaustive_blocks.push(format!("KMV: all rank sequences of length <= {m} over 4 ranks x all merge trees with <= 3 leaves x k in {{1,2,3}} ({cnt} accumulators)"));
+    }
+
+    marks.push(("exhaustive".into(), t0.elapsed().as_secs_f64()));
+    /* (3) random block */
+    let rounds = cx.budget(3000, 20000);
+    for _ in 0..rounds {
+        let n = match cx.rng.below(10) { 0 => cx.rng.below(3), 1..=5 => cx.rng.below(12), 6..=8 => cx.rng.below(80), _ => 100 + cx.rng.below(500) };
+        let vals = gen_values(&mut cx.rng, n);
+        let delta = if n > 150 { *cx.rng.pick(&[5.0, 20.0, 100.0]) } else { gen_delta(&mut cx.rng) };
+        let tree = random_tree(&mut cx.rng, n, 4, true);
+        let qs = gen_qs(&mut cx.rng);
+        let cdfs = gen_cdfs(&mut cx.rng, &vals);
+        let fin = match cx.rng.below(5) { 0 => Fin::Raw, 1 => Fin::Med, _ => Fin::Aq };
+        one_td(cx, delta, fin, &tree, &vals, &qs, &cdfs);
+    }
+    let rounds = cx.budget(3000, 20000);
+    for _ in 0..rounds {
+        let raw = cx.rng.chance(1, 2);
+        let k = if raw { *cx.rng.pick(&[0usize, 1, 2, 3, 4, 5, 8, 16]) } else { *cx.rng.pick(&[0usize, 1, 4, 5, 8, 16, 32]) };
+        let n = cx.rng.below(60);
+        let dom = 1 + cx.rng.below(2 * k.max(4) + 4);
+        let mut ranks = gen_ranks(&mut cx.rng, n, dom);
+        if cx.rng.chance(1, 6) { for r in ranks.iter_mut() { *r = (*r * 8.0).floor() / 8.0; } } // coarse ranks: many ties, incl. 0.0
+        let tree = random_tree(&mut cx.rng, n, 4, false);
+        one_kmv(cx, k, raw, &tree, &ranks);
+    }
+
+    marks.push(("random".into(), t0.elapsed().as_secs_f64()));
+    /* (4) real pipelines, both modes, several partition counts */
+    let rounds = cx.budget(400, 2000);
+    for _ in 0..rounds {
+        let n = match cx.rng.below(6) { 0 => cx.rng.below(3), 1..=3 => cx.rng.below(30), _ => 50 + cx.rng.below(400) };
+        let vals = gen_values(&mut cx.rng, n);
+        let delta = *cx.rng.pick(&[5.0, 20.0, 100.0, 100.0]);
+        let qs = if cx.rng.chance(1, 2) { grid(20) } else { vec![0.0, 0.25, 0.5, 0.75, 1.0] };
+        let parts = *cx.rng.pick(&[1usize, 2, 3, 5, 8, 16, 64]);
+        let mode = if cx.rng.chance(1, 3) { Mode::Seq } else { Mode::Par(parts) };
+        match cx.rng.below(4) {
+            0 => pipe_td_global(cx, delta, &vals, &qs, mode, false, false),
+            1 => { let med = cx.rng.chance(1, 2); pipe_td_global(cx, delta, &vals, &qs, mode, true, med) }
+            2 => pipe_td_global(cx, delta, &vals, &qs, mode, false, true),
+            _ => {
+                let keys = 1 + cx.rng.below(4) as u32;
+                let rows: Vec<(u32, f64)> = vals.iter().map(|v| ((cx.rng.next_u64() % keys as u64) as u32, *v)).collect();
+                let via_gbk = cx.rng.chance(1, 3);
+                let median = cx.rng.chance(1, 3);
+                pipe_td_keyed(cx, delta, &rows, &qs, mode, via_gbk, median);
+            }
+        }
+        // KMV pipelines
+        let k = *cx.rng.pick(&[1usize, 4, 8, 16, 64]);
+        let dn = 1 + cx.rng.below(3 * k.max(4));
+        let m = cx.rng.below(200);
+        let values: Vec<u64> = (0..m).map(|_| cx.rng.below(dn) as u64 * 1_000_003 + 17).collect();
+        if cx.rng.chance(1, 2) {
+            pipe_kmv_global(cx, k, &values, mode);
+            // the same multiset, shuffled, other partitioning: same estimate (oracle inside compares with the reference)
+            let mut sh = values.clone();
+            for i in (1..sh.len()).rev() { let j = cx.rng.below(i + 1); sh.swap(i, j); }
+            let p2 = *cx.rng.pick(&[1usize, 2, 7, 32]);
+            pipe_kmv_global(cx, k, &sh, Mode::Par(p2));
+        } else {
+            let keys = 1 + cx.rng.below(3) as u32;
+            let rows: Vec<(u32, u64)> = values.iter().map(|v| ((cx.rng.next_u64() % keys as u64) as u32, *v)).collect();
+            pipe_kmv_keyed(cx, k, &rows, mode);
+        }
+    }
+
+    marks.push(("pipelines".into(), t0.elapsed().as_secs_f64()));
+    /* (5) statistical accuracy: empirical only */
+    if cx.tier != Tier::Search { empirical(cx); }
+    marks.push(("empirical".into(), t0.elapsed().as_secs_f64()));
+    cx.notes.push(format!("harness phases, cumulative seconds: {marks:?}"));
 }
